@@ -370,7 +370,10 @@ def gen_data(rng, runs):
     for r in rng.sample(range(len(runs)), rng.randint(1, len(runs))):
         dps = []
         for inv in range(1, rng.randint(1, 3) + 1):
-            for it in range(1, rng.randint(1, 4) + 1):
+            its = list(range(1, rng.randint(1, 4) + 1))
+            if rng.random() < 0.25:         # iterations with gaps (a harness that reports only some of them)
+                its = sorted(rng.sample(range(1, 9), rng.randint(1, 4)))
+            for it in its:
                 cs = [c for c in crit_pool[1:] if rng.random() < 0.4]
                 rng.shuffle(cs)
                 ms = [(c, serial * 10 + j) for j, c in enumerate(cs)] + [("total", serial * 10 + 9)]
@@ -420,8 +423,11 @@ def payload_part(chk):
         term = coq_list(["(%s, %s)" % (coq_nat(r), coq_list(
             ["{| d_inv := %s; d_it := %s; d_ms := %s |}" % (coq_nat(inv), coq_nat(it), coq_list(
                 ["(%s, %s)" % (coq_nat(cid(c)), coq_Z(v)) for c, v in ms])) for inv, it, ms in dps])) for r, dps in data])
-        exprs.append("L [sx_v1 (encode_v1 %s); sx_v2 (encode_v2 %s)]" % (term, term))
-        obs.append((case, canon_v1(v1, runs, crit_ids), canon_v2(v2, runs, crit_ids)))
+        exprs.append("L [sx_v1 (encode_v1 %s); sx_v2 (encode_v2 %s); sx_v2_decoded %s]" % (term, term, term))
+        # what the receiver reads from the real request, per run in request order, criteria as the model's numbers
+        dec2 = [[r, sorted([inv, it, crit_ids[c], v] for rr, inv, it, c, v in d2 if rr == r)] for r in
+                [run_index(rd, runs) for rd in v2[0]]]
+        obs.append((case, canon_v1(v1, runs, crit_ids), canon_v2(v2, runs, crit_ids), dec2))
         chk.case(("payload", json.dumps(data)), sample=dict(data=data) if i == 5 else None)
     chk.count("payload_data_sets", n)
     return exprs, obs
@@ -490,14 +496,24 @@ def run(chk):
                     chk.obligation_broken("correspondence", "Model.DbCache vs _ReBenchDB",
                                           "case %s\n impl cache=%s acked=%s requests=%s\n model %s" % (
                                               json.dumps(case, default=str)[:1500], obs["cache"], obs["acked"], obs["requests"], m))
-        for (case, c1, c2), m in zip(pobs, res[len(exprs):]):
-            m1, m2 = m
+        in_domain = 0
+        for (case, c1, c2, dec2), m in zip(pobs, res[len(exprs):]):
+            m1, m2, m3 = m
+            wfb, contb, mdec = m3
+            in_domain += 1 if (wfb == 1 and contb == 1) else 0
+            mdec = [[r, sorted(ms)] for r, ms in mdec[0]] if mdec else None
+            if mdec != dec2:
+                ndis += 1
+                if ndis <= 3:
+                    chk.obligation_broken("correspondence", "Model.decode_v2 (encode_v2 data) vs the measurements read from convert_data_to_api_20_format",
+                                          "case %s\n impl %s\n model %s" % (case, dec2, mdec))
             m2c = m2 if m2 == [] else [m2[0], m2[1]]
             if m1 != c1 or m2c != c2:
                 ndis += 1
                 if ndis <= 3:
                     chk.obligation_broken("correspondence", "encode_v1/encode_v2 vs convert_data_to_api_format",
                                           "case %s\n impl v1 %s\n model v1 %s\n impl v2 %s\n model v2 %s" % (case, c1, m1, c2, m2c))
+        chk.count("payload_data_sets_inside_v2_theorem_guards", in_domain)
         chk.coverage["traces_validated_against_impl"] = len(res)
         chk.count("disagreements", ndis)
     chk.coverage["rule"] = ("all sequences of answer patterns per transmission (ack, refused-then-ack, 5xx-5xx-ack, 4xx, five "
@@ -506,8 +522,8 @@ def run(chk):
                             "sequences; whole sessions with reloaded and measured data; data point sets with sparse criteria")
     chk.coverage["exhaustive"] = True
     chk.assumptions += ["urlopen is scripted at ReBenchDB._send_payload (URLError / HTTPError / response); sleep and the 30 s clock "
-                        "are replaced by the launcher", "API v2 round trip is decided by correspondence and an independent decoder, "
-                        "not by a theorem"]
+                        "are replaced by the launcher", "API v2: the receiver's reading of a request (decode_v2) is a specification written from "
+                        "ReBenchDB's format description, not code of this repository"]
     return chk.finish()
 
 
